@@ -137,6 +137,7 @@ func loadProgram(repo, goarch string) (*Program, error) {
 			}
 		}
 	}
+	resolveAliases(p)
 	return p, nil
 }
 
@@ -162,6 +163,11 @@ func (p *Program) Func(pkg, name string) *ssa.Function {
 	sp := p.SPkgs[pkg]
 	if sp == nil {
 		return nil
+	}
+	for fn, a := range aliasOf {
+		if a == name && fn.Pkg == sp && fn.Signature.Recv() == nil {
+			return fn
+		}
 	}
 	return sp.Func(name)
 }
@@ -197,6 +203,11 @@ func (p *Program) Method(pkg, typ, name string) *ssa.Function {
 func (p *Program) MethodOf(n *types.Named, name string) *ssa.Function {
 	ms := p.SSA.MethodSets.MethodSet(types.NewPointer(n))
 	for i := 0; i < ms.Len(); i++ {
+		if fn := p.SSA.MethodValue(ms.At(i)); fn != nil && aliasOf[underlyingOfWrapperOrSelf(fn)] == name {
+			return fn
+		}
+	}
+	for i := 0; i < ms.Len(); i++ {
 		if ms.At(i).Obj().Name() == name {
 			return p.SSA.MethodValue(ms.At(i))
 		}
@@ -206,6 +217,11 @@ func (p *Program) MethodOf(n *types.Named, name string) *ssa.Function {
 
 // DeclaredMethod returns method name only if it is declared directly on T or *T (not promoted).
 func (p *Program) DeclaredMethod(n *types.Named, name string) *ssa.Function {
+	for i := 0; i < n.NumMethods(); i++ {
+		if fn := p.SSA.FuncValue(n.Method(i)); fn != nil && aliasOf[fn] == name {
+			return fn
+		}
+	}
 	for i := 0; i < n.NumMethods(); i++ {
 		m := n.Method(i)
 		if m.Name() == name {
@@ -276,6 +292,9 @@ func funcName(f *ssa.Function) string {
 	}
 	s := f.String()
 	s = strings.ReplaceAll(s, modPath+"/", "")
+	if a, ok := aliasOf[f]; ok && strings.HasSuffix(s, "."+f.Name()) {
+		s = strings.TrimSuffix(s, f.Name()) + a
+	}
 	return s
 }
 
